@@ -62,6 +62,11 @@ def Proto.add (s : Proto) (h : Handler) : Proto × Nat :=
   let id := nextId (s.handlers.map Prod.fst)
   ({ s with handlers := insertSorted id h s.handlers }, id)
 
+/-- registration under a given id (used by the driver to follow the ids an implementation hands out under another
+allocation policy: C17 requires a fresh id, not a particular one); `none` when the id is in use -/
+def Proto.addAt (s : Proto) (h : Handler) (id : Nat) : Option Proto :=
+  if s.handlers.any (·.1 == id) then none else some { s with handlers := insertSorted id h s.handlers }
+
 /-- `remove_packet_handler` -/
 def Proto.remove (s : Proto) (id : Nat) : Proto × Except PErr Unit :=
   if s.handlers.any (·.1 == id) then
